@@ -60,3 +60,7 @@ Definition pack_be16 (n : Z) : list Z := [n / 256; n mod 256].
 Definition pack_le16 (n : Z) : list Z := [n mod 256; n / 256].
 Definition pack_le32 (n : Z) : list Z := [n mod 256; (n / 256) mod 256; (n / 65536) mod 256; (n / 16777216) mod 256].
 Definition pack_be32 (n : Z) : list Z := [(n / 16777216) mod 256; (n / 65536) mod 256; (n / 256) mod 256; n mod 256].
+
+(* bytes.startswith and struct.unpack(">H", x)[0] (total: Python raises struct.error unless len x = 2) *)
+Definition py_startswith (l p : list Z) : bool := list_eqb (firstn (length p) l) p.
+Definition unpack_be16 (l : list Z) : Z := pyidx l 0 * 256 + pyidx l 1.
